@@ -554,7 +554,11 @@ def _to_shape_list(region_list, coordinate_system='fk5'):
         meta.update(region.visual)
 
         if reg_type == 'text':
-            meta['text'] = meta.get('text', meta.pop('label', ''))
+            # the text of a text region is its ``text`` attribute (a label
+            # that merely repeats it is not written twice)
+            if meta.get('label', None) == region.text:
+                meta.pop('label')
+            meta['text'] = region.text
 
         include = region.meta.get('include', True)
 
